@@ -17,9 +17,9 @@ import (
 	"fmt"
 	"testing"
 
+	"github.com/keep-network/keep-core/internal/testutils"
 	kit "github.com/keep-network/keep-core/internal/verifkit"
 	vsup "github.com/keep-network/keep-core/internal/verifsup"
-	"github.com/keep-network/keep-core/internal/testutils"
 	beaconchain "github.com/keep-network/keep-core/pkg/beacon/chain"
 	"github.com/keep-network/keep-core/pkg/beacon/event"
 	"github.com/keep-network/keep-core/pkg/chain"
@@ -63,7 +63,7 @@ func (c13Counter) BlockHeightWaiter(b uint64) (<-chan uint64, error) {
 	ch <- b
 	return ch, nil
 }
-func (c13Counter) CurrentBlock() (uint64, error)              { return 0, nil }
+func (c13Counter) CurrentBlock() (uint64, error)             { return 0, nil }
 func (c13Counter) WatchBlocks(context.Context) <-chan uint64 { return make(chan uint64) }
 
 type c13Channel struct{ sent int }
@@ -73,7 +73,7 @@ func (c *c13Channel) Send(context.Context, net.TaggedMarshaler, ...net.Retransmi
 	c.sent++
 	return nil
 }
-func (c *c13Channel) Recv(context.Context, func(net.Message))    {}
+func (c *c13Channel) Recv(context.Context, func(net.Message))     {}
 func (c *c13Channel) SetUnmarshaler(func() net.TaggedUnmarshaler) {}
 func (c *c13Channel) SetFilter(net.BroadcastChannelFilter) error  { return nil }
 
@@ -159,6 +159,11 @@ func TestVerif_C13_Beacon(t *testing.T) {
 			accepted := c.Get("accepted").List()
 			concrete := make([]vsup.Concrete, len(msgs))
 			key := "beacon:" + kit.Hash([]interface{}{c.Get("nonop").X, c.Get("msgs").X})
+			nontrivial := ""
+			if len(msgs) > 0 {
+				nontrivial = key
+			}
+			rep.Eval(nontrivial, map[string]interface{}{"case": c.X})
 			for k, m := range msgs {
 				cm, err := ring.Realize(m, ci+3*k, mine, other)
 				if err != nil {
@@ -213,11 +218,6 @@ func TestVerif_C13_Beacon(t *testing.T) {
 				}
 				rep.Count("beacon.gate."+fmt.Sprint(want), 1)
 			}
-			nontrivial := ""
-			if len(msgs) > 0 {
-				nontrivial = key
-			}
-			rep.Eval(nontrivial, map[string]interface{}{"case": c.X, "supporters": len(verdict)})
 			rep.Count("beacon.cases", 1)
 			rep.Count(fmt.Sprintf("beacon.supporters.%d", len(verdict)), 1)
 		}()
